@@ -29,6 +29,8 @@ theorem pathOf_snoc (cs : List Str) (n : Str) : pathOf (cs ++ [n]) = childPath (
 /-- a usable entry name: non-empty, no separator, no glob metacharacter -/
 def NameOk (n : Str) : Prop := n ≠ [] ∧ ∀ c ∈ n, plainChar c = true ∧ c ≠ '/'
 
+instance (n : Str) : Decidable (NameOk n) := by unfold NameOk; infer_instance
+
 theorem split_first_slash : ∀ (d a X Y : Str), '/' ∉ d → '/' ∉ a → (d ++ '/' :: X) <+: (a ++ '/' :: Y) → d = a ∧ X <+: Y
   | [], [], X, Y, _, _, h => by
     obtain ⟨t, ht⟩ := h
@@ -418,7 +420,7 @@ theorem inv_step (t0 : Tree) (s s' : PState) (hi : Inv t0 s) (hs : PStep s s') :
     by_cases hig : ignored s.loaded (childPath (pathOf a.comps) n) = true
     · simp only [hig, if_true]
       exact ⟨hL, hP, hact'⟩
-    · simp only [hig, if_false]
+    · simp only [hig]
       refine ⟨hL, ?_, hact'⟩
       intro j hj
       rcases List.mem_cons.1 hj with rfl | h
@@ -455,40 +457,47 @@ def specAct (a : Act) : List Str :=
 
 /-- emitted so far ∪ what the schedule-free walk still owes -/
 def Owes (s : PState) (p : Str) : Prop :=
-  p ∈ s.emitted ∨ (∃ j ∈ s.pending, p ∈ specJob j) ∨ (∃ a ∈ s.active, p ∈ specAct a)
+  p ∈ s.emitted ∨ p ∈ s.pending.flatMap specJob ∨ p ∈ s.active.flatMap specAct
 
 theorem specJob_node (j : Job) (c : Str) (files : List Str) (dirs : List (Str × Tree)) (ht : j.tree = .node c files dirs) :
     specJob j = specAct ⟨j.comps, j.base ++ rulesOf (pathOf j.comps) c, files, dirs⟩ := by
   simp only [specJob, ht, walkWith, List.append_nil, walkDirs_eq_flatMap, specAct]
+
+theorem mem_flatMap_middle {α β} (f : α → List β) (l1 l2 : List α) (x : α) (p : β) :
+    p ∈ (l1 ++ x :: l2).flatMap f ↔ p ∈ f x ∨ p ∈ (l1 ++ l2).flatMap f := by
+  simp only [List.flatMap_append, List.flatMap_cons, List.mem_append]
+  constructor
+  · rintro (h | h | h)
+    · exact Or.inr (Or.inl h)
+    · exact Or.inl h
+    · exact Or.inr (Or.inr h)
+  · rintro (h | h | h)
+    · exact Or.inr (Or.inl h)
+    · exact Or.inl h
+    · exact Or.inr (Or.inr h)
 
 theorem owes_step (t0 : Tree) (s s' : PState) (hi : Inv t0 s) (hs : PStep s s') (p : Str) : Owes s' p ↔ Owes s p := by
   obtain ⟨hL, _, hA⟩ := hi
   cases hs with
   | start l1 l2 j c files dirs hp ht =>
     unfold Owes
-    simp only [hp, List.mem_append, List.mem_cons, List.exists_mem_or_eq_left] -- normalise memberships
-    rw [specJob_node j c files dirs ht]
+    simp only [hp, mem_flatMap_middle, List.flatMap_cons, List.mem_append, specJob_node j c files dirs ht]
     constructor
-    · rintro (h | ⟨j', hj', h⟩ | ⟨a, ha, h⟩)
+    · rintro (h | h | h | h)
       · exact Or.inl h
-      · exact Or.inr (Or.inl ⟨j', by rcases hj' with h' | h' <;> simp [h'], h⟩)
-      · rcases ha with rfl | ha
-        · exact Or.inr (Or.inl ⟨j, by simp, by rw [specJob_node j c files dirs ht]; exact h⟩)
-        · exact Or.inr (Or.inr ⟨a, ha, h⟩)
-    · rintro (h | ⟨j', hj', h⟩ | ⟨a, ha, h⟩)
+      · exact Or.inr (Or.inl (Or.inr h))
+      · exact Or.inr (Or.inl (Or.inl h))
+      · exact Or.inr (Or.inr h)
+    · rintro (h | (h | h) | h)
       · exact Or.inl h
-      · rcases hj' with h' | rfl | h'
-        · exact Or.inr (Or.inl ⟨j', Or.inl h', h⟩)
-        · exact Or.inr (Or.inr ⟨_, Or.inl rfl, by rw [← specJob_node j' c files dirs ht]; exact h⟩)
-        · exact Or.inr (Or.inl ⟨j', Or.inr h', h⟩)
-      · exact Or.inr (Or.inr ⟨a, Or.inr ha, h⟩)
+      · exact Or.inr (Or.inr (Or.inl h))
+      · exact Or.inr (Or.inl h)
+      · exact Or.inr (Or.inr (Or.inr h))
   | file a1 a2 a f1 f2 f hact hf =>
     have ha : ActOk t0 s.loaded a := hA a (by rw [hact]; simp)
     have hv := verdict_eq t0 s.loaded a f hL ha (ha.2.1 f (by rw [hf]; simp))
-    -- the act before and after, as sets
-    have key : ∀ q, q ∈ specAct a ↔
-        (q = childPath (pathOf a.comps) f ∧ ignored a.base q = false) ∨ q ∈ specAct { a with files := f1 ++ f2 } := by
-      intro q
+    have key : p ∈ specAct a ↔
+        (p = childPath (pathOf a.comps) f ∧ ignored a.base p = false) ∨ p ∈ specAct { a with files := f1 ++ f2 } := by
       simp only [specAct, hf, List.mem_append, List.mem_filter, List.mem_map, List.mem_cons, Bool.not_eq_true']
       constructor
       · rintro (⟨⟨x, hx, rfl⟩, hq⟩ | h)
@@ -502,41 +511,45 @@ theorem owes_step (t0 : Tree) (s s' : PState) (hi : Inv t0 s) (hs : PStep s s') 
         · exact Or.inl ⟨⟨x, by rcases hx with h | h <;> simp [h], rfl⟩, hq⟩
         · exact Or.inr h
     unfold Owes
-    simp only [hact, List.mem_append, List.mem_cons]
-    constructor
-    · rintro (h | h | ⟨b, hb, h⟩)
-      · by_cases hig : ignored s.loaded (childPath (pathOf a.comps) f) = true
-        · simp only [hig, if_true] at h; exact Or.inl h
-        · simp only [hig, if_false, List.mem_cons] at h
-          rcases h with rfl | h
-          · refine Or.inr (Or.inr ⟨a, Or.inr (Or.inl rfl), (key _).2 (Or.inl ⟨rfl, ?_⟩)⟩)
-            rw [← hv]; simpa using hig
-          · exact Or.inl h
-      · exact Or.inr (Or.inl h)
-      · rcases hb with hb | rfl | hb
-        · exact Or.inr (Or.inr ⟨b, Or.inl hb, h⟩)
-        · exact Or.inr (Or.inr ⟨a, Or.inr (Or.inl rfl), (key _).2 (Or.inr h)⟩)
-        · exact Or.inr (Or.inr ⟨b, Or.inr (Or.inr hb), h⟩)
-    · rintro (h | h | ⟨b, hb, h⟩)
-      · left; by_cases hig : ignored s.loaded (childPath (pathOf a.comps) f) = true
-        · simp only [hig, if_true]; exact h
-        · simp only [hig, if_false, List.mem_cons]; exact Or.inr h
-      · exact Or.inr (Or.inl h)
-      · rcases hb with hb | rfl | hb
-        · exact Or.inr (Or.inr ⟨b, Or.inl hb, h⟩)
-        · rcases (key _).1 h with ⟨rfl, hq⟩ | h
-          · left
-            have : ignored s.loaded (childPath (pathOf b.comps) f) = false := by rw [hv]; exact hq
-            simp [this]
-          · exact Or.inr (Or.inr ⟨_, Or.inr (Or.inl rfl), h⟩)
-        · exact Or.inr (Or.inr ⟨b, Or.inr (Or.inr hb), h⟩)
+    simp only [hact, mem_flatMap_middle, key]
+    cases hig : ignored s.loaded (childPath (pathOf a.comps) f) with
+    | true =>
+      have hb : ignored a.base (childPath (pathOf a.comps) f) = true := by rw [← hv]; exact hig
+      simp only [if_true]
+      constructor
+      · rintro (h | h | h | h)
+        · exact Or.inl h
+        · exact Or.inr (Or.inl h)
+        · exact Or.inr (Or.inr (Or.inl (Or.inr h)))
+        · exact Or.inr (Or.inr (Or.inr h))
+      · rintro (h | h | (⟨rfl, hq⟩ | h) | h)
+        · exact Or.inl h
+        · exact Or.inr (Or.inl h)
+        · rw [hb] at hq; cases hq
+        · exact Or.inr (Or.inr (Or.inl h))
+        · exact Or.inr (Or.inr (Or.inr h))
+    | false =>
+      have hb : ignored a.base (childPath (pathOf a.comps) f) = false := by rw [← hv]; exact hig
+      simp only [Bool.false_eq_true, if_false, List.mem_cons]
+      constructor
+      · rintro ((rfl | h) | h | h | h)
+        · exact Or.inr (Or.inr (Or.inl (Or.inl ⟨rfl, hb⟩)))
+        · exact Or.inl h
+        · exact Or.inr (Or.inl h)
+        · exact Or.inr (Or.inr (Or.inl (Or.inr h)))
+        · exact Or.inr (Or.inr (Or.inr h))
+      · rintro (h | h | (⟨rfl, _⟩ | h) | h)
+        · exact Or.inl (Or.inr h)
+        · exact Or.inr (Or.inl h)
+        · exact Or.inl (Or.inl rfl)
+        · exact Or.inr (Or.inr (Or.inl h))
+        · exact Or.inr (Or.inr (Or.inr h))
   | dir a1 a2 a d1 d2 n sub hact hd =>
     have ha : ActOk t0 s.loaded a := hA a (by rw [hact]; simp)
     have hmem : (n, sub) ∈ a.dirs := by rw [hd]; simp
     have hv := verdict_eq t0 s.loaded a n hL ha (dirsOk_mem a.dirs ha.2.2.1 (n, sub) hmem).1
-    have key : ∀ q, q ∈ specAct a ↔
-        q ∈ dirPart (fun _ => []) a.base (pathOf a.comps) (n, sub) ∨ q ∈ specAct { a with dirs := d1 ++ d2 } := by
-      intro q
+    have key : p ∈ specAct a ↔
+        p ∈ dirPart (fun _ => []) a.base (pathOf a.comps) (n, sub) ∨ p ∈ specAct { a with dirs := d1 ++ d2 } := by
       simp only [specAct, hd, List.mem_append, List.flatMap_append, List.flatMap_cons]
       constructor
       · rintro (h | h | h | h)
@@ -549,73 +562,61 @@ theorem owes_step (t0 : Tree) (s s' : PState) (hi : Inv t0 s) (hs : PStep s s') 
         · exact Or.inl h
         · exact Or.inr (Or.inl h)
         · exact Or.inr (Or.inr (Or.inr h))
-    have hpart : ∀ q, q ∈ dirPart (fun _ => []) a.base (pathOf a.comps) (n, sub) ↔
+    have hpart : p ∈ dirPart (fun _ => []) a.base (pathOf a.comps) (n, sub) ↔
         ignored a.base (childPath (pathOf a.comps) n) = false ∧
-          (q = childPath (pathOf a.comps) n ∨ q ∈ specJob ⟨a.comps ++ [n], sub, a.base⟩) := by
-      intro q
+          (p = childPath (pathOf a.comps) n ∨ p ∈ specJob ⟨a.comps ++ [n], sub, a.base⟩) := by
       simp only [dirPart, List.append_nil, specJob, pathOf_snoc]
       cases hc : ignored a.base (childPath (pathOf a.comps) n) <;> simp
     unfold Owes
-    by_cases hig : ignored s.loaded (childPath (pathOf a.comps) n) = true
-    · have hb : ignored a.base (childPath (pathOf a.comps) n) = true := by rw [← hv]; exact hig
-      simp only [hig, if_true, hact, List.mem_append, List.mem_cons]
+    cases hig : ignored s.loaded (childPath (pathOf a.comps) n) with
+    | true =>
+      have hb : ignored a.base (childPath (pathOf a.comps) n) = true := by rw [← hv]; exact hig
+      simp only [if_true, hact, mem_flatMap_middle, key, hpart, hb]
       constructor
-      · rintro (h | h | ⟨b, hb', h⟩)
+      · rintro (h | h | h | h)
         · exact Or.inl h
         · exact Or.inr (Or.inl h)
-        · rcases hb' with hb' | rfl | hb'
-          · exact Or.inr (Or.inr ⟨b, Or.inl hb', h⟩)
-          · exact Or.inr (Or.inr ⟨a, Or.inr (Or.inl rfl), (key _).2 (Or.inr h)⟩)
-          · exact Or.inr (Or.inr ⟨b, Or.inr (Or.inr hb'), h⟩)
-      · rintro (h | h | ⟨b, hb', h⟩)
+        · exact Or.inr (Or.inr (Or.inl (Or.inr h)))
+        · exact Or.inr (Or.inr (Or.inr h))
+      · rintro (h | h | (⟨hq, _⟩ | h) | h)
         · exact Or.inl h
         · exact Or.inr (Or.inl h)
-        · rcases hb' with hb' | rfl | hb'
-          · exact Or.inr (Or.inr ⟨b, Or.inl hb', h⟩)
-          · rcases (key _).1 h with h | h
-            · rw [hpart, hb] at h; exact absurd h.1 (by simp)
-            · exact Or.inr (Or.inr ⟨_, Or.inr (Or.inl rfl), h⟩)
-          · exact Or.inr (Or.inr ⟨b, Or.inr (Or.inr hb'), h⟩)
-    · have hb : ignored a.base (childPath (pathOf a.comps) n) = false := by rw [← hv]; simpa using hig
-      simp only [hig, hact, List.mem_append, List.mem_cons]
+        · cases hq
+        · exact Or.inr (Or.inr (Or.inl h))
+        · exact Or.inr (Or.inr (Or.inr h))
+    | false =>
+      have hb : ignored a.base (childPath (pathOf a.comps) n) = false := by rw [← hv]; exact hig
+      simp only [Bool.false_eq_true, if_false, hact, mem_flatMap_middle, key, hpart, hb, List.mem_cons, List.flatMap_cons,
+        List.mem_append, true_and]
       constructor
-      · rintro ((rfl | h) | ⟨j, hj, h⟩ | ⟨b, hb', h⟩)
-        · exact Or.inr (Or.inr ⟨a, Or.inr (Or.inl rfl), (key _).2 (Or.inl ((hpart _).2 ⟨hb, Or.inl rfl⟩))⟩)
+      · rintro ((rfl | h) | (h | h) | h | h)
+        · exact Or.inr (Or.inr (Or.inl (Or.inl (Or.inl rfl))))
         · exact Or.inl h
-        · rcases hj with rfl | hj
-          · exact Or.inr (Or.inr ⟨a, Or.inr (Or.inl rfl), (key _).2 (Or.inl ((hpart _).2 ⟨hb, Or.inr h⟩))⟩)
-          · exact Or.inr (Or.inl ⟨j, hj, h⟩)
-        · rcases hb' with hb' | rfl | hb'
-          · exact Or.inr (Or.inr ⟨b, Or.inl hb', h⟩)
-          · exact Or.inr (Or.inr ⟨a, Or.inr (Or.inl rfl), (key _).2 (Or.inr h)⟩)
-          · exact Or.inr (Or.inr ⟨b, Or.inr (Or.inr hb'), h⟩)
-      · rintro (h | ⟨j, hj, h⟩ | ⟨b, hb', h⟩)
+        · exact Or.inr (Or.inr (Or.inl (Or.inl (Or.inr h))))
+        · exact Or.inr (Or.inl h)
+        · exact Or.inr (Or.inr (Or.inl (Or.inr h)))
+        · exact Or.inr (Or.inr (Or.inr h))
+      · rintro (h | h | ((rfl | h) | h) | h)
         · exact Or.inl (Or.inr h)
-        · exact Or.inr (Or.inl ⟨j, Or.inr hj, h⟩)
-        · rcases hb' with hb' | rfl | hb'
-          · exact Or.inr (Or.inr ⟨b, Or.inl hb', h⟩)
-          · rcases (key _).1 h with h | h
-            · rcases ((hpart _).1 h).2 with rfl | h
-              · exact Or.inl (Or.inl rfl)
-              · exact Or.inr (Or.inl ⟨_, Or.inl rfl, h⟩)
-            · exact Or.inr (Or.inr ⟨_, Or.inr (Or.inl rfl), h⟩)
-          · exact Or.inr (Or.inr ⟨b, Or.inr (Or.inr hb'), h⟩)
+        · exact Or.inr (Or.inl (Or.inr h))
+        · exact Or.inl (Or.inl rfl)
+        · exact Or.inr (Or.inl (Or.inl h))
+        · exact Or.inr (Or.inr (Or.inl h))
+        · exact Or.inr (Or.inr (Or.inr h))
   | done a1 a2 a hact hf hd =>
-    have hempty : ∀ q, ¬ q ∈ specAct a := by intro q; simp [specAct, hf, hd]
+    have hempty : ¬ p ∈ specAct a := by simp [specAct, hf, hd]
     unfold Owes
-    simp only [hact, List.mem_append, List.mem_cons]
+    simp only [hact, mem_flatMap_middle]
     constructor
-    · rintro (h | h | ⟨b, hb, h⟩)
+    · rintro (h | h | h)
       · exact Or.inl h
       · exact Or.inr (Or.inl h)
-      · exact Or.inr (Or.inr ⟨b, by rcases hb with h' | h' <;> simp [h'], h⟩)
-    · rintro (h | h | ⟨b, hb, h⟩)
+      · exact Or.inr (Or.inr (Or.inr h))
+    · rintro (h | h | h | h)
       · exact Or.inl h
       · exact Or.inr (Or.inl h)
-      · rcases hb with hb | rfl | hb
-        · exact Or.inr (Or.inr ⟨b, Or.inl hb, h⟩)
-        · exact absurd h (hempty _)
-        · exact Or.inr (Or.inr ⟨b, Or.inr hb, h⟩)
+      · exact absurd h hempty
+      · exact Or.inr (Or.inr h)
 
 /-- every reachable state owes exactly `walkSpec` -/
 theorem owes_reach (t : Tree) (ht : TreeOk t) (s : PState) (h : PReach t s) (p : Str) : Owes s p ↔ p ∈ walkSpec t := by
